@@ -33,6 +33,7 @@ import (
 	"io"
 	"math/rand"
 	"net"
+	"net/http"
 	"os"
 	"strconv"
 	"strings"
@@ -56,6 +57,7 @@ type inflObs struct {
 }
 
 type endpoint struct {
+	parser    *nbhttp.Parser
 	ws        *websocket.Conn
 	closed    bool // underlying conn closed
 	limit     int
@@ -132,6 +134,7 @@ func (nopWC) Write(p []byte) (int, error) { return len(p), nil }
 func (nopWC) Close() error                { return nil }
 
 type wsCfg struct {
+	handoff              bool // client conn created by the upgrade hand-off of the HTTP client parser
 	client               bool
 	compress             bool
 	level                int
@@ -173,19 +176,36 @@ func newEndpoint(g wsCfg) *endpoint {
 		e.dtypes = append(e.dtypes, int(mt))
 	})
 	fc := &fakeConn{e: e}
-	if g.client {
-		e.ws = websocket.NewClientConn(u, fc, "", g.compress, false)
-	} else {
-		e.ws = websocket.NewServerConn(u, fc, "", g.compress, false)
-	}
 	// inline executor with nbio.Conn.Execute's contract: refuses once the conn is closed
-	e.ws.Execute = func(f func()) bool {
+	inline := func(f func()) bool {
 		if e.closed {
 			return false
 		}
 		f()
 		return true
 	}
+	if g.handoff {
+		// websocket.Dialer's response callback, on a parser that is not attached to a poller
+		var parser *nbhttp.Parser
+		parser = nbhttp.NewParser(fc, engine, nbhttp.NewClientProcessor(nil, func(res *http.Response, err error) {
+			if err != nil || res == nil || res.StatusCode != 101 {
+				return
+			}
+			ws := websocket.NewClientConn(u, fc, "", g.compress, false)
+			parser.ParserCloser = ws
+			ws.Engine = engine
+			ws.Execute = inline
+			e.ws = ws
+		}), true, inline)
+		e.parser = parser
+		return e
+	}
+	if g.client {
+		e.ws = websocket.NewClientConn(u, fc, "", g.compress, false)
+	} else {
+		e.ws = websocket.NewServerConn(u, fc, "", g.compress, false)
+	}
+	e.ws.Execute = inline
 	return e
 }
 
@@ -301,6 +321,10 @@ type recvCase struct {
 	maxDeliv int
 	nt       bool
 	key      strings.Builder
+	// upgrade hand-off cases ("C up"): the bytes go through the real HTTP client parser, which hands over to the
+	// websocket conn when the 101 response is complete (what websocket.Dialer does in the response callback)
+	parser *nbhttp.Parser
+	stream []byte // every byte fed so far, 101 response included
 }
 
 func b2i(b bool) int {
@@ -334,7 +358,9 @@ func exec(e *lp.Exec) {
 		}()
 		if rc != nil {
 			e.Key(rc.key.String(), rc.nt)
-			rc.e.ws.CloseAndClean(nil)
+			if rc.e.ws != nil {
+				rc.e.ws.CloseAndClean(nil)
+			}
 			rc = nil
 		}
 		if rt != nil {
@@ -359,6 +385,16 @@ func exec(e *lp.Exec) {
 			rc = &recvCase{g: g, e: newEndpoint(g)}
 			fmt.Fprintf(&rc.key, "recv/%v/%v/%v/%v|", g.client, g.compress, g.limit > 0, g.readLimit > 0)
 			e.Count("cases", "recv")
+			e.P("> %s", line)
+			e.P("ok")
+		case f[0] == "C" && len(f) > 1 && f[1] == "up":
+			finish()
+			mode = "recv"
+			g := wsCfg{handoff: true, client: true, compress: field(f, "compress") == "1", level: 1,
+				limit: atoi(field(f, "limit")), readLimit: 0, mf: atoi(field(f, "maxframe"))}
+			rc = &recvCase{g: g, e: newEndpoint(g)}
+			fmt.Fprintf(&rc.key, "up/%v/%v|", g.compress, g.limit > 0)
+			e.Count("cases", "up")
 			e.P("> %s", line)
 			e.P("ok")
 		case f[0] == "C" && len(f) > 1 && f[1] == "rt":
@@ -429,9 +465,9 @@ func exec(e *lp.Exec) {
 			e.P("> %s", line)
 			e.P("R %s", short(got))
 			e.Key(fmt.Sprintf("mask/%d/%d", len(data)/64, len(data)%8), len(data) > 0)
-		case f[0] == "D" && mode == "recv" && len(f) >= 2:
+		case (f[0] == "D" || f[0] == "H") && mode == "recv" && len(f) >= 2 && (f[0] == "H") == rc.g.handoff:
 			execD(e, rc, lg, f)
-		case f[0] == "X" && mode == "recv" && len(f) >= 3:
+		case f[0] == "X" && mode == "recv" && len(f) >= 3 && rc.e.ws != nil:
 			execX(e, rc, f)
 		case f[0] == "E" && mode == "recv":
 			execE(e, rc)
@@ -463,27 +499,53 @@ func guard(e *lp.Exec, echo string, f func() error) error {
 	return nil
 }
 
+func (ep *endpoint) cacheLen() int {
+	if ep.ws == nil {
+		return 0
+	}
+	return ep.ws.VerifCacheLen()
+}
+func (ep *endpoint) msgLen() int {
+	if ep.ws == nil {
+		return 0
+	}
+	return ep.ws.VerifMessageLen()
+}
+
 func actsStr(a []string) string { return "[" + strings.Join(a, ";") + "]" }
 
 func execD(e *lp.Exec, rc *recvCase, lg *capLogger, f []string) {
 	seg := parseSpec(f[1])
-	rc.all = append(rc.all, seg...)
+	if rc.g.handoff {
+		// websocket bytes = what follows the first CRLF CRLF of the stream
+		rc.stream = append(rc.stream, seg...)
+		if i := bytes.Index(rc.stream, []byte("\r\n\r\n")); i >= 0 {
+			rc.all = rc.stream[i+4:]
+		}
+	} else {
+		rc.all = append(rc.all, seg...)
+	}
 	if rc.dead {
-		e.P("> D %s infl= keys=", f[1])
+		e.P("> %s %s infl= keys=", f[0], f[1])
 		e.P("dead")
 		return
 	}
 	ep := rc.e
 	ep.reset()
-	cache0 := ep.ws.VerifCacheLen()
+	cache0 := ep.cacheLen()
 	t0 := time.Now()
-	err := guard(e, "D "+f[1]+" infl= keys=", func() error { return ep.ws.Parse(append([]byte{}, seg...)) })
+	err := guard(e, f[0]+" "+f[1]+" infl= keys=", func() error {
+		if ep.parser != nil {
+			return ep.parser.Parse(append([]byte{}, seg...))
+		}
+		return ep.ws.Parse(append([]byte{}, seg...))
+	})
 	if d := time.Since(t0); d > 5*time.Second {
 		e.Oracle("c15-limit", "class=slow Parse took %v on %d bytes", d, len(seg))
 	}
 	ec := errCode(err)
-	cache, ml := ep.ws.VerifCacheLen(), ep.ws.VerifMessageLen()
-	e.P("> D %s infl=%s keys=%s", f[1], ep.inflAnn(), keysOf(ep.writes))
+	cache, ml := ep.cacheLen(), ep.msgLen()
+	e.P("> %s %s infl=%s keys=%s", f[0], f[1], ep.inflAnn(), keysOf(ep.writes))
 	if ec != 0 {
 		rc.dead, rc.err = true, ec
 		e.P("R err=%d cache=%d msglen=%d %s", ec, cache, ml, actsStr(ep.acts))
@@ -530,10 +592,23 @@ func execD(e *lp.Exec, rc *recvCase, lg *capLogger, f []string) {
 		}
 		if cache > bound {
 			e.Oracle("c15-limit", "class=cache-over-readlimit cache=%d readlimit=%d data=%d", cache, rl, len(seg))
+		} else if cache > rl {
+			// the statement as worded ("never exceeds the read limit"): a single read into an empty cache is kept whole
+			e.Oracle("c15-limit", "class=first-read-over-readlimit cache=%d readlimit=%d data=%d", cache, rl, len(seg))
 		}
 	}
 	if (ec == 4 || ec == 5) && !has1009(ep.writes) && !ep.closed {
 		e.Oracle("c15-limit", "class=no-1009 err=%d but no close frame with code 1009 was written", ec)
+	}
+	// an oversize COMPRESSED message, seen on the implementation alone: the inflater handed out more than the limit
+	// (the byte beyond it is the probe) and Parse failed - whatever error value it returns, the peer must be answered with 1009
+	if L > 0 && ec != 0 && ec != 4 && !ep.closed && !has1009(ep.writes) {
+		for _, o := range ep.infl {
+			if len(o.out) > L {
+				e.Oracle("c15-limit", "class=no-1009 oversize compressed message (inflates to more than %d bytes) refused with err=%d but not answered with close code 1009", L, ec)
+				break
+			}
+		}
 	}
 }
 
@@ -639,7 +714,7 @@ func checkTwin(e *lp.Exec, rc *recvCase, tw twinResult, label string) {
 	if tw.verdict == "reject:too-big" || tw.verdict == "reject:ctl-len" {
 		if out == "ok" {
 			e.Oracle("c15-limit", "class=%s->ok oversized input accepted at=%d", tw.verdict, tw.at)
-		} else if !has1009(rc.writes) && rc.err != 2 && (rc.err == 4 || rc.err == 5) && !rc.e.closed {
+		} else if !has1009(rc.writes) && rc.err != 2 && rc.err != 0 && !rc.e.closed {
 			e.Oracle("c15-limit", "class=no-1009 %s refused with %s but no close frame with code 1009", tw.verdict, out)
 		}
 	}
@@ -651,7 +726,28 @@ func execE(e *lp.Exec, rc *recvCase) {
 	strict := rfcTwin(g, fs, true)
 	lenient := rfcTwin(g, fs, false)
 	e.P("> E tinfl=%s", strings.Join(lenient.infl, "|"))
-	e.P("E rfc=%s@%d len=%s@%d exp=%s", strict.verdict, strict.at, lenient.verdict, lenient.at, actsStr(lenient.exp))
+	may := lenient.may
+	if may == "" {
+		may = "-"
+	}
+	e.P("E rfc=%s@%d len=%s@%d may=%s exp=%s", strict.verdict, strict.at, lenient.verdict, lenient.at, may, actsStr(lenient.exp))
+	if rc.g.handoff && (lenient.verdict == "accept" || lenient.verdict == "closed") && lenient.may == "" {
+		// C12 through the upgrade hand-off: what the server sent behind its 101 response is what the client delivers
+		var want, got []string
+		for _, x := range lenient.exp {
+			if strings.HasPrefix(x, "deliver:") {
+				want = append(want, x)
+			}
+		}
+		for _, x := range rc.evs {
+			if strings.HasPrefix(x, "deliver:") {
+				got = append(got, x)
+			}
+		}
+		if !eq(want, got) {
+			e.Oracle("c12-roundtrip", "class=handoff messages sent behind the 101 response %s, delivered %s (err=%d)", actsStr(want), actsStr(got), rc.err)
+		}
+	}
 	e.Count("twin", lenient.verdict)
 	if rc.err == 2 { // read limit: segmentation dependent by design, outside the RFC predicate
 		return
@@ -807,7 +903,17 @@ func (r *rtCase) execW(e *lp.Exec, lg *capLogger, f []string) {
 		berr = errCode(snd.ws.Parse(append([]byte{}, back...)))
 	}
 	e.P("> W %s %s %s keys=%s defl=%s cuts=%s infl=%s bkeys=%s rkeys=%s", f[1], f[2], f[3], keys, defl, strings.Join(cs, ","), rcv.inflAnn(), bkeys, keysOf(snd.writes[nw:]))
-	e.P("W werr=%d wire=%s recv=%s rerr=%d back=%s berr=%d", werr, short(wire), actsStr(racts), rerr, actsStr(snd.acts), berr)
+	// codec: for a compressed data message, "inflate (deflate x) = x" on what compress/flate really produced
+	// (the model computes it from the observed tables; here it is the constant the law demands)
+	codec := "-"
+	if (mt == 1 || mt == 2) && len(snd.defl) > 0 && werr == 0 && len(rcv.infl) > 0 {
+		codec = "ok"
+		if r.limit > 0 && len(data) > r.limit {
+			codec = "big"
+		}
+	}
+	e.P("W werr=%d wire=%s recv=%s rerr=%d back=%s berr=%d rcache=%d rmsglen=%d codec=%s", werr, short(wire), actsStr(racts), rerr, actsStr(snd.acts), berr,
+		rcv.ws.VerifCacheLen(), rcv.ws.VerifMessageLen(), codec)
 	if lg.panics > 0 {
 		e.Oracle("c12-roundtrip", "class=panic Parse recovered from a panic")
 		lg.panics = 0
